@@ -195,6 +195,14 @@ def gen_cases(ctx):
                                   'ityp': ITYPES[(n + len(cases)) % len(ITYPES)],
                                   'tuple1': len(cases) % 2 == 0})
     ctx.count('exhaustive_1d', len(cases) - 7)
+    # long dimensions (sizes are not small integers any more): centres and edges, a few slices each
+    for n in (257, 300, 1000) if quick else (257, 258, 300, 513, 1000, 4097):
+        for kind in ('c', 'e', None):
+            for a, b in ((10, 20), (None, -1), (-3, None), (256, 257), (0, 1), (n - 1, n + 5), (None, None), (5, 5)):
+                cases.append({'shape': [n], 'kinds': None if kind is None else [kind], 'ops': [['get', [[a, b]]]]})
+        cases.append({'shape': [2, n], 'kinds': ['e', 'c'], 'ops': [['get', [[0, 1], [100, 130]]], ['squeeze']]})
+        cases.append({'shape': [n, 1], 'kinds': ['c', 'c'], 'ops': [['get', [[-260, -1], [None, None]]], ['squeeze']]})
+    ctx.count('long_dimensions', 1)
     # random n-d chains
     nrand = 500 if quick else 12000
     for _ in range(nrand):
